@@ -229,3 +229,121 @@ example :
   decide +kernel
 
 end MCHap.C03
+
+/-! ### allele-level statistics: AFP sums to one, ACP to the ploidy; GPM ≤ SPM ≤ 1 -/
+namespace MCHap.C03
+open MCHap
+
+/-- exchange of two finite sums over lists -/
+theorem sum_comm_lists {α β : Type} (la : List α) (lb : List β) (f : α → β → ℚ) :
+    (la.map (fun a => (lb.map (fun b => f a b)).sum)).sum
+      = (lb.map (fun b => (la.map (fun a => f a b)).sum)).sum := by
+  induction la with
+  | nil => simp
+  | cons a t ih =>
+    simp only [List.map_cons, List.sum_cons, ih]
+    rw [← List.sum_map_add]
+
+theorem enum_mem (P : CallParams) (ploidy n' : ℕ) (hn : P.n = n' + 1) (hp : 1 ≤ ploidy) (g : List ℕ)
+    (hg : g ∈ enumGenotypes P.n ploidy) : g.length = ploidy ∧ ∀ x ∈ g, x < P.n := by
+  rw [hn, C11.enumeration_is_vcf_order n' ploidy hp] at hg
+  obtain ⟨h1, _, h3⟩ := vcfOrder_mem ploidy n' g hg
+  exact ⟨h1, fun x hx => by rw [hn]; exact Nat.lt_succ_of_le (h3 x hx)⟩
+
+theorem zip_post_sum (P : CallParams) (ploidy : ℕ) :
+    (((enumGenotypes P.n ploidy).zip (exactPosterior P ploidy)).map (fun gp => gp.2)).sum
+      = (exactPosterior P ploidy).sum := by
+  have hl : (exactPosterior P ploidy).length = (enumGenotypes P.n ploidy).length := by
+    simp [exactPosterior, normalise, exactJoint]
+  rw [← List.unzip_snd, List.unzip_zip (by omega)]
+
+/-- **ACP sums to the ploidy** -/
+theorem acp_sum_ploidy (P : CallParams) (ploidy n' : ℕ) (hn : P.n = n' + 1) (hp : 1 ≤ ploidy)
+    (hs : (exactPosterior P ploidy).sum = 1) : (alleleCounts P ploidy).sum = ploidy := by
+  unfold alleleCounts
+  simp only
+  rw [sum_comm_lists (List.range P.n) ((enumGenotypes P.n ploidy).zip (exactPosterior P ploidy))
+    (fun a gp => gp.2 * ((gp.1.count a : ℕ) : ℚ))]
+  have : ∀ gp ∈ (enumGenotypes P.n ploidy).zip (exactPosterior P ploidy),
+      ((List.range P.n).map (fun a => gp.2 * ((gp.1.count a : ℕ) : ℚ))).sum = gp.2 * ploidy := by
+    intro gp hgp
+    obtain ⟨hlen, hlt⟩ := enum_mem P ploidy n' hn hp gp.1 (List.of_mem_zip hgp).1
+    rw [List.sum_map_mul_left, C05.sum_count_range P.n gp.1 hlt, hlen]
+  rw [List.map_congr_left this, List.sum_map_mul_right, zip_post_sum, hs, one_mul]
+
+/-- **AFP sums to one** -/
+theorem afp_sum_one (P : CallParams) (ploidy n' : ℕ) (hn : P.n = n' + 1) (hp : 1 ≤ ploidy)
+    (hs : (exactPosterior P ploidy).sum = 1) : (alleleFreqs P ploidy).sum = 1 := by
+  unfold alleleFreqs
+  have : (alleleCounts P ploidy).map (· / (ploidy : ℚ))
+      = (alleleCounts P ploidy).map (· * (ploidy : ℚ)⁻¹) := by
+    apply List.map_congr_left; intro x _; exact div_eq_mul_inv _ _
+  rw [this, List.sum_map_mul_right, List.map_id', acp_sum_ploidy P ploidy n' hn hp hs]
+  have : (ploidy : ℚ) ≠ 0 := by positivity
+  field_simp
+
+/-- sum of a sub-selection of non-negative terms is at most the whole sum and at least any
+    selected term -/
+theorem filter_sum_bounds {α : Type} (l : List (α × ℚ)) (sel : α × ℚ → Bool)
+    (hnn : ∀ x ∈ l, 0 ≤ x.2) :
+    (l.filter sel).foldr (fun gp acc => gp.2 + acc) 0 ≤ (l.map (·.2)).sum ∧
+    ∀ x ∈ l, sel x = true → x.2 ≤ (l.filter sel).foldr (fun gp acc => gp.2 + acc) 0 := by
+  induction l with
+  | nil => simp
+  | cons y t ih =>
+    have hy : 0 ≤ y.2 := hnn y (by simp)
+    obtain ⟨i1, i2⟩ := ih (fun x hx => hnn x (List.mem_cons_of_mem _ hx))
+    have hrest : 0 ≤ (t.filter sel).foldr (fun gp acc => gp.2 + acc) 0 := by
+      have : ∀ l' : List (α × ℚ), (∀ x ∈ l', 0 ≤ x.2) → 0 ≤ l'.foldr (fun gp acc => gp.2 + acc) 0 := by
+        intro l'; induction l' with
+        | nil => intro _; simp
+        | cons z r ihr =>
+          intro h
+          simp only [List.foldr]
+          have := h z (by simp)
+          have := ihr (fun x hx => h x (List.mem_cons_of_mem _ hx))
+          linarith
+      exact this _ (fun x hx => hnn x (List.mem_cons_of_mem _ (List.mem_of_mem_filter hx)))
+    by_cases hsel : sel y = true
+    · simp only [List.filter, hsel, List.foldr, List.map_cons, List.sum_cons]
+      refine ⟨by linarith, ?_⟩
+      intro x hx hsx
+      rcases List.mem_cons.mp hx with h | h
+      · rw [h]; linarith
+      · have := i2 x h hsx; linarith
+    · have hsel' : sel y = false := by simpa using hsel
+      simp only [List.filter, hsel', List.map_cons, List.sum_cons]
+      refine ⟨by linarith, ?_⟩
+      intro x hx hsx
+      rcases List.mem_cons.mp hx with h | h
+      · rw [h] at hsx; rw [hsx] at hsel'; cases hsel'
+      · exact i2 x h hsx
+
+theorem sameSupport_refl (g : List ℕ) : sameSupport g g = true := by
+  unfold sameSupport
+  simp only [Bool.and_self]
+  rw [List.all_eq_true]
+  intro x hx
+  simpa using hx
+
+/-- **GPM ≤ SPM ≤ 1**: the probability `q` of any genotype `g` of the posterior (in particular the
+    reported one) is at most the total probability of the genotypes sharing its set of distinct
+    alleles, which is at most one — whenever the posterior entries are non-negative and sum to one -/
+theorem gpm_le_spm_le_one (P : CallParams) (ploidy : ℕ)
+    (hnn : ∀ q ∈ exactPosterior P ploidy, 0 ≤ q) (hs : (exactPosterior P ploidy).sum = 1)
+    (g : List ℕ) (q : ℚ)
+    (hmem : (g, q) ∈ (enumGenotypes P.n ploidy).zip (exactPosterior P ploidy)) :
+    q ≤ supportProb P ploidy g ∧ supportProb P ploidy g ≤ 1 := by
+  have hz : ∀ x ∈ (enumGenotypes P.n ploidy).zip (exactPosterior P ploidy), 0 ≤ x.2 :=
+    fun x hx => hnn x.2 (List.of_mem_zip hx).2
+  obtain ⟨b1, b2⟩ := filter_sum_bounds ((enumGenotypes P.n ploidy).zip (exactPosterior P ploidy))
+    (fun gp => sameSupport gp.1 g) hz
+  unfold supportProb
+  simp only
+  constructor
+  · exact b2 (g, q) hmem (sameSupport_refl g)
+  · have : (((enumGenotypes P.n ploidy).zip (exactPosterior P ploidy)).map (·.2)).sum = 1 := by
+      rw [zip_post_sum]; exact hs
+    rw [← this]; exact b1
+
+end MCHap.C03
